@@ -344,3 +344,69 @@ def h_pipeflow_kwargs(inp, body):
         if got != val or (got is not val and val is None):
             bad.append({"passed": repr(val), "in_force": repr(got)})
     return {"reproduced": bool(bad), "observed": {"key": key, "mismatches": bad}}
+
+
+def h_pump_array(inp, body):
+    from pandapipes.std_types.std_type_class import PumpStdType
+    import pandapipes
+    if not inp:
+        return {"reproduced": False, "observed": "no witness"}
+    net = pandapipes.create_empty_network(fluid="water")
+    if inp["pump"] in net.std_types["pump"]:
+        pump = net.std_types["pump"][inp["pump"]]
+    else:
+        pump = PumpStdType.from_list("synthetic", np.array([0., 10., 20., 30.]), np.array([2., 1.5, 0.5, -1.0]), 2)
+    vs = inp["vdot"]
+    exp = [pump.get_pressure(float(v)) for v in vs]
+    try:
+        got = np.asarray(pump.get_pressure(np.array(vs, dtype=float)), dtype=float).tolist()
+        bad = not np.allclose(got, exp, rtol=1e-12, atol=0) or any(g < 0 for g in got)
+    except Exception as e:  # noqa
+        got, bad = "%s: %s" % (type(e).__name__, e), True
+    return {"reproduced": bool(bad), "observed": {"vdot": vs, "scalar_queries": [float(x) for x in exp], "array_query": got}}
+
+
+def h_property_query(inp, body):
+    """queries of the three kinds on the property class named in the obligation label"""
+    import pandas as pd
+    from pandapipes.properties import fluids as fl
+    label = inp["label"]
+    kind = label.split("/")[-1]
+    meth = label.split("/")[0]
+    cname = body["obligation"].split("/")[1]
+    mk = {"FluidPropertyConstant": lambda: fl.FluidPropertyConstant(4.2),
+          "FluidPropertyLinear": lambda: fl.FluidPropertyLinear(0.5, 2.0),
+          "FluidPropertyInterExtra": lambda: fl.FluidPropertyInterExtra([0., 1., 2.], [1., 3., 4.]),
+          "FluidPropertyPolynominal": lambda: fl.FluidPropertyPolynominal([0., 1., 2., 3.], [1., 2., 5., 10.], 2),
+          "FluidPropertySutherland": lambda: fl.FluidPropertySutherland(1e-5, 273., 110.)}[cname]
+    prop = mk()
+    q = {"scalar": (3.0, 1.0), "ndarray": (np.array([3.0, 2.0]), np.array([1.0, 0.5])),
+         "series": (pd.Series([3.0, 2.0]), pd.Series([1.0, 0.5]))}[kind]
+    try:
+        if meth == "value":
+            out = prop.get_at_value(q[0])
+        else:
+            out = prop.get_at_integral_value(q[0], q[1])
+        return {"reproduced": False, "observed": {"result": np.asarray(out).tolist()}}
+    except Exception as e:  # noqa
+        return {"reproduced": True, "observed": {"class": cname, "method": meth, "query_kind": kind,
+                                                 "raised": "%s: %s" % (type(e).__name__, e)}}
+
+
+def h_der_compressibility(inp, body):
+    import pandapipes
+    f = pandapipes.call_lib(inp["fluid"])
+    slope = float(f.all_properties["compressibility"].slope)
+    der = float(np.asarray(f.get_der_compressibility()).ravel()[0])
+    return {"reproduced": slope != der, "observed": {"fluid": inp["fluid"], "compressibility_slope": slope,
+                                                     "der_compressibility": der}}
+
+
+def h_interextra_integral(inp, body):
+    from pandapipes.properties import fluids as fl
+    p = fl.FluidPropertyInterExtra([0., 1., 2.], [1., 3., 4.])
+    a, b = float(p.get_at_integral_value(2.0, 1.0)), float(p.get_at_integral_value(1.0, 2.0))
+    trap = (float(p.get_at_value(2.0)) + float(p.get_at_value(1.0))) / 2 * (2.0 - 1.0)
+    bad = abs(a + b) > 1e-12 or abs(a - trap) > 1e-12
+    return {"reproduced": bool(bad), "observed": {"I(2,1)": a, "I(1,2)": b, "trapezoid(2,1)": trap,
+                                                  "table": {"x": [0, 1, 2], "y": [1, 3, 4]}}}
